@@ -252,6 +252,9 @@ func (e *Env) eval(x ast.Expr) Value {
 	case *ast.SelectorExpr:
 		return e.selector(t)
 	case *ast.UnaryExpr:
+		if id, ok := t.X.(*ast.Ident); ok && t.Op == token.AND && !e.noLocals && e.fr != nil && e.fr.envAddr[id.Name] {
+			return e.fr.env[id.Name] // address of a local variable that lives in a cell
+		}
 		v := e.eval(t.X)
 		switch t.Op {
 		case token.NOT:
